@@ -61,6 +61,9 @@ var c14Cases = []c14Case{
 	{"nested-module-imported-twice", map[string]string{"dir/m": "tick(\"dir/m\")\nk := a\nfunc bump() { k = k + 1 }\nfunc get() { return k }"}, "import \"dir/m\"\nimport \"dir/m\" as again\nm.bump()\nagain.bump()\nm.get() + again.get()", func(a, b int64) int64 { return 2 * (a + 2) }, map[string]int{"dir/m": 1}},
 	{"nested-module-from-import-after-import", map[string]string{"dir/m": "tick(\"dir/m\")\nx := a"}, "import \"dir/m\"\nfrom dir.m import x\nx + m.x", func(a, b int64) int64 { return 2 * a }, map[string]int{"dir/m": 1}},
 	{"nested-and-top-level-same-base-name", map[string]string{"dir/m": "tick(\"dir/m\")\nx := a", "m": "tick(\"m\")\nx := b"}, "import \"dir/m\" as inner\nimport m\ninner.x - m.x", func(a, b int64) int64 { return a - b }, map[string]int{"dir/m": 1, "m": 1}},
+	{"module-attribute-follows-rebinding-by-module-function", map[string]string{"m": "tick(\"m\")\ncount := a\nfunc inc() { count = count + 1 }\nfunc get() { return count }"}, "import m\nm.inc()\nm.inc()\nm.count + m.get()", func(a, b int64) int64 { return 2 * (a + 2) }, map[string]int{"m": 1}},
+	{"other-module-sees-rebinding", map[string]string{"m": "tick(\"m\")\ncount := a\nfunc inc() { count = count + b }", "u": "tick(\"u\")\nimport m\nfunc peek() { return m.count }"}, "import m\nimport u\nm.inc()\nu.peek() + m.count", func(a, b int64) int64 { return 2 * (a + b) }, map[string]int{"m": 1, "u": 1}},
+	{"from-import-after-rebinding", map[string]string{"m": "tick(\"m\")\ncount := a\nfunc inc() { count = count + 1 }"}, "import m\nm.inc()\nfrom m import count\ncount", func(a, b int64) int64 { return a + 1 }, map[string]int{"m": 1}},
 	{"import-inside-function-twice", map[string]string{"m": "tick(\"m\")\nx := a"}, "f := func() { import m\n return m.x }\nf() + f()", func(a, b int64) int64 { return 2 * a }, map[string]int{"m": 1}},
 }
 
